@@ -100,15 +100,22 @@ def r_ndarray(c):
     # has to keep integers on the update_for_int path
     own = m.cls(KB).methods.get("update_for_numpy_scalar")
     if own is not None and _feeds_dtype(own):
+        # tabulated by case-split evaluation of the override's normal form (an if/elif
+        # chain, guard + return, or a loop over a table of (type, updater) rows are
+        # the same table): where the scalar is a np.integer the one thing done is
+        # update_for_int(h, int(k))
+        from pta import symrun as _sr
         kh_, k_ = own.args.args[1].arg, own.args.args[2].arg
+        try:
+            tab_ = _sr.table([s_ for s_ in m.normal(own).body if not isinstance(
+                s_, (ast.Import, ast.ImportFrom))], lambda t: None)
+        except AnalysisError:
+            tab_ = {}
         ok_int = any(
-            isinstance(i, ast.If) and ast.unparse(i.test) in (
-                f"isinstance({k_}, np.integer)", f"isinstance({k_}, numpy.integer)")
-            and [ast.unparse(s_) for s_ in i.body if not (
-                isinstance(s_, ast.Expr) and isinstance(s_.value, ast.Constant))]
-            == [f"self.update_for_int({kh_}, int({k_}))"]
-            and not any(_feeds_dtype_in(s_, kh_, k_) for s_ in i.body)
-            for i in ast.walk(own))
+            any(v and "np.integer" in k and "isinstance" in k for k, v in dict(cs).items())
+            and [e for e in ev if e[0] != "exit"] == [
+                ("call", "self.update_for_int", (kh_, f"int({k_})"))]
+            for cs, ev in tab_.items())
         c.check(ok_int, "R18-NDARRAY", "PytatoKeyBuilder.update_for_numpy_scalar",
                 "integers-keyed-like-python-ints", m.loc(m.module_of(own), own),
                 "numpy integers are keyed with their dtype: x[1] and x[np.int64(1)] (equal "
@@ -127,7 +134,7 @@ def r_ndarray(c):
         from pta import symrun
         kh_, k_ = own.args.args[1].arg, own.args.args[2].arg
         try:
-            tab = symrun.table([s_ for s_ in own.body if not isinstance(
+            tab = symrun.table([s_ for s_ in m.normal(own).body if not isinstance(
                 s_, (ast.Import, ast.ImportFrom))], lambda t: None)
         except AnalysisError:
             tab = {}
